@@ -106,6 +106,12 @@ def c16_group(seed, idx, algo):
     if not doo_default:
         maps.append(("affine", sc, tr, tr_exact))
         maps.append(("scale-arbitrary", [rnd.uniform(0.1, 10) for _ in range(d)], [0.0] * d, False))
+    if exact and not doo_default:
+        maps.append(("scale-tiny", [2.0 ** -rnd.randint(25, 40) for _ in range(d)], [0.0] * d, True))
+        maps.append(("scale-huge", [2.0 ** rnd.randint(25, 40) for _ in range(d)], [0.0] * d, True))
+    if exact and kind in ("binary", "dimBinary") and base.meta["bmode"] in ("unit", "shift") and base.meta["T"] <= 300:
+        # far translation: exact while the cells keep fewer than ~25 fractional bits
+        maps.append(("translate-far", [1.0] * d, [float(rnd.choice([-1, 1])) * 2.0 ** rnd.randint(18, 24) for _ in range(d)], True))
     for nm, a, b, is_exact in maps:
         nb = affine_box(base.meta["box"], a, b)
         v = gen_algo_case(seed, idx, algo, force=base_force(base.meta, box=nb, t0=1, query_rounds=[]))
@@ -208,6 +214,14 @@ def c14_group(seed, idx, algo):
             meta2 = dict(meta)
             if other != algo:
                 meta2 = dict(meta, params=ADAPTERS[other].gen_params(rnd, meta["T"]))
+            elif rnd.random() < 0.7:
+                # same class, ONE constructor argument changed: state shared between instances and keyed on
+                # only part of the configuration shows up here
+                alt = ADAPTERS[algo].gen_params(rnd, meta["T"])
+                keys = [k for k in meta["params"] if k in alt and alt[k] != meta["params"][k] and k not in ("base", "n", "rounds", "h_max")]
+                if keys:
+                    k = rnd.choice(keys)
+                    meta2 = dict(meta, params=dict(meta["params"], **{k: alt[k]}))
             rew2 = [rnd.randint(0, 1024) / 1024.0 for _ in rewards]
             aloneA = plain_run(algo, meta, rewards, s)
             aloneB = plain_run(other, meta2, rew2, s + 1)
